@@ -64,7 +64,7 @@ Proof. reflexivity. Qed.
 Lemma bridge_shift_fp lx ly xm ym (px py : nat) dx dy :
   gen_shift_fp O lx ly xm ym (cofZ O (Z.of_nat px)) (cofZ O (Z.of_nat py)) dx dy
   = cis O (shift_arg_fp O lx ly xm ym dx dy px py).
-Proof. unfold gen_shift_fp, cis, shift_arg_fp. first [reflexivity | (f_equal; lits; field; nz)]. Qed.
+Proof. unfold gen_shift_fp, cis, shift_arg_fp. first [reflexivity | (apply f_equal; ring) | (f_equal; lits; field; nz)]. Qed.
 Lemma bridge_shift_ctr lx ly xm ym xmx ymx :
   gen_shift_ctr O lx ly xm ym xmx ymx = cis O (shift_arg_ctr O lx ly xm ym xmx ymx).
 Proof. unfold gen_shift_ctr, cis, shift_arg_ctr. first [reflexivity | (f_equal; lits; field; nz)]. Qed.
